@@ -174,8 +174,7 @@ func genIncrement(c *Ctx, fn *ssa.Function) int64 {
 
 func ruleG2(c *Ctx, id string) {
 	V, P, R := c.V, c.P, c.R
-	R.Rule(id, "Kind and Gen are written only by InitInode, FreeInode and Decode; InitInode and FreeInode bump Gen on every path; InitInode is called only by AllocInode (on a FREE inode) and mkfs; FreeInode only by doDecLink, marks the inode FREE and writes it through", 10)
-	doDec := c.fn(id, "nfs.(*Nfs).doDecLink")
+	R.Rule(id, "Kind and Gen are written only by InitInode, FreeInode and Decode; InitInode and FreeInode bump Gen on every path; InitInode is called only by AllocInode (on a FREE inode) and mkfs; FreeInode only where DecLink said the last link is gone, marks the inode FREE and writes it through", 10)
 	mkroot := c.fn(id, "inode.MkRootInode")
 	allowedW := map[*ssa.Function]bool{V.InitInode: true, V.FreeInode: true, V.Decode: true}
 	for _, fn := range P.RepoFuncs() {
@@ -215,7 +214,19 @@ func ruleG2(c *Ctx, id string) {
 		if !IsRepoFunc(cs.Caller) {
 			continue
 		}
-		R.Check(ownerOf(cs.Caller) == doDec, id, FuncName(ownerOf(cs.Caller))+"|calls FreeInode", P.Pos(cs.Instr.Pos()), "FreeInode is called only by doDecLink (link count reached zero)", "known caller", "an inode freed outside the unlink path")
+		// the inode is freed where its link count has just reached zero: on the true side of DecLink of the same inode
+		fip := stripConv(recvOf(cs.Instr))
+		zero := guardedBy(cs.Caller, cs.Instr.Block(), func(cd Cond) (bool, bool) {
+			if cd.Op != token.ILLEGAL {
+				return false, false
+			}
+			dc, ok := cd.X.(*ssa.Call)
+			if ok && dc.Call.StaticCallee() == V.DecLink && stripConv(recvOf(dc)) == fip {
+				return true, true
+			}
+			return false, false
+		})
+		R.Check(zero, id, FuncName(ownerOf(cs.Caller))+"|calls FreeInode", P.Pos(cs.Instr.Pos()), "FreeInode is called only where DecLink of the same inode returned true (link count reached zero)", "dominated by DecLink() == true", "an inode freed outside the unlink path")
 	}
 	if V.FreeInode != nil {
 		f := V.FreeInode
